@@ -1827,7 +1827,7 @@ func (r *Runtime) toValue(i interface{}, origValue reflect.Value) Value {
 	case string:
 		if len(i) <= 16 {
 			if u := unistring.Scan(i); u != nil {
-				return &importedString{s: i, u: u, scanned: true}
+				return newScannedImportedString(i, u)
 			}
 			return asciiString(i)
 		}
